@@ -144,7 +144,12 @@ class Runner:
         return res
 
     def programs(self, units):
-        return [Program(r.facts, r.unit) for r in self.run(units)]
+        ps = [Program(r.facts, r.unit) for r in self.run(units)]
+        # every program a check looks at is remembered: the anchors the rules are filled from are verified on them
+        if not hasattr(self, 'analysed'):
+            self.analysed = []
+        self.analysed.extend(ps)
+        return ps
 
 
 def _extra_has_w(self):
